@@ -305,6 +305,19 @@ func drawScenario(rng *rand.Rand, big bool) joeScenario {
 		// dropping at once), one or two publications, then Shutdown
 		sc.rep = "none"
 		n := 64 + rng.Intn(47)
+		if n%4 == 3 {
+			// … or a house of many rooms: 67 to 107 subscribers, each on a topic of its own, publications to the rooms around
+			// the 64th and to the first and the last one (whoever matches topics by position, bit or hash has its limits there)
+			for i := 0; i < n; i++ {
+				sc.subs = append(sc.subs, joeSub{topics: []int{i}, last: "-", cancel: "-", startAt: "0"})
+			}
+			for _, t := range []int{63, 64, 65, 0, n - 1} {
+				sc.pubs = append(sc.pubs, joePub{topics: []int{t}})
+			}
+			sc.pubs = append(sc.pubs, joePub{topics: []int{62, 64, n - 2}})
+			sc.shuts = []string{"end"}
+			return sc
+		}
 		for i := 0; i < n; i++ {
 			s := joeSub{topics: []int{0}, last: "-", cancel: "-", startAt: "0"}
 			if rng.Intn(10) != 0 {
@@ -369,6 +382,9 @@ func drawScenario(rng *rand.Rand, big bool) joeScenario {
 	}
 	// one scenario in six with a Finite/Valid replayer: more publications than the ring holds when it is first filled,
 	// and a late subscriber that resumes from an old ID with a writer failing once in mid-replay (below)
+	if nt == 4 && (np+ns)%3 == 0 {
+		nt = 5 + (np+ns)%4 // five to eight topics: subscribers of more than four, events on several of them
+	}
 	lateResumer := (strings.HasPrefix(sc.rep, "finite") || strings.HasPrefix(sc.rep, "valid")) && rng.Intn(6) == 0
 	if lateResumer {
 		np = 4 + rng.Intn(6)
